@@ -101,6 +101,13 @@ fn private_builder_work(t: usize) -> String {
         let _ = b.fput(b"3");
         out.push_str(&b.to_string());
         out.push('|');
+        // a growing run of leading zeros, rendered (shared formatting helpers must not be racy)
+        let mut z = DigitString::new();
+        for _ in 0..(33 + 4 * k + t) {
+            let _ = z.put(b"0");
+        }
+        let _ = z.put(b"7");
+        out.push_str(&format!("{}:{}|", z.len(), z.to_string()));
     }
     out
 }
